@@ -1,2 +1,114 @@
+"""C16 part 2 — ref backends: Model/Refs.v (two-level files store) vs the real
+DiskRefsContainer on operation sequences; git's view of the resulting directory;
+in-memory and reftable backends on the restricted class of sequences."""
+from common import Model, Impl, hx, unhx
+
+PROP = "C16"
+NAMES = [b"refs/heads/a", b"refs/heads/a/b", b"refs/heads/main", b"refs/tags/t", b"refs/heads/s", b"HEAD", b"refs/heads/s2"]
+
+
+def gen_seq(rng, ids, n, restricted=False):
+    ops = []
+    syms = set()
+    for _ in range(n):
+        k = rng.random()
+        name = rng.choice(NAMES)
+        if restricted:
+            name = rng.choice([b"refs/heads/a", b"refs/heads/main", b"refs/tags/t", b"refs/heads/c"])
+        old = rng.choice(["NONE", "NONE", hx(rng.choice(ids)), hx(b"0" * 40)])
+        if k < 0.35:
+            ops.append("set:%s:%s:%s" % (hx(name), old, hx(rng.choice(ids))))
+        elif k < 0.5:
+            ops.append("add:%s:%s" % (hx(name), hx(rng.choice(ids))))
+        elif k < 0.7:
+            if name == b"HEAD":
+                name = b"refs/heads/main"      # deleting HEAD un-makes the repository
+            ops.append("del:%s:%s" % (hx(name), old))
+        elif k < 0.82 and not restricted:
+            tgt = rng.choice(NAMES[:5] + [b"refs/heads/s", b"refs/heads/s2"])
+            ops.append("sym:%s:%s" % (hx(rng.choice([b"refs/heads/s", b"refs/heads/s2", b"HEAD", b"refs/heads/a"])), hx(tgt)))
+        elif k < 0.94 and not restricted:
+            ops.append("pack:%d" % rng.randrange(2))
+        else:
+            ops.append("reopen")
+    return ops
+
+
 def run(rep):
-    rep.note("ref backend correspondence not built yet")
+    rng = rep.rng
+    impl = Impl(PROP, workers=8, case_timeout=120)
+    ids = [i.encode() for i in impl.run([{"fn": "refs_ids"}])[0]["ids"]]
+    model = Model(PROP)
+    nseq = 250 if rep.tier == "quick" else 5000
+    seqs = [
+        ["set:%s:NONE:%s" % (hx(b"refs/heads/a"), hx(ids[0])), "pack:1", "add:%s:%s" % (hx(b"refs/heads/a/b"), hx(ids[1]))],
+        ["set:%s:NONE:%s" % (hx(b"refs/heads/a/b"), hx(ids[0])), "pack:1", "set:%s:NONE:%s" % (hx(b"refs/heads/a"), hx(ids[1]))],
+        ["set:%s:NONE:%s" % (hx(b"refs/heads/main"), hx(ids[0])), "sym:%s:%s" % (hx(b"refs/heads/s"), hx(b"refs/heads/main")), "pack:1",
+         "set:%s:NONE:%s" % (hx(b"refs/heads/s"), hx(ids[1]))],
+        ["set:%s:NONE:%s" % (hx(b"refs/heads/a"), hx(ids[0])), "pack:1", "set:%s:NONE:%s" % (hx(b"refs/heads/a"), hx(ids[1])),
+         "del:%s:%s" % (hx(b"refs/heads/a"), hx(ids[1]))],
+        ["sym:%s:%s" % (hx(b"refs/heads/s"), hx(b"refs/heads/s2")), "sym:%s:%s" % (hx(b"refs/heads/s2"), hx(b"refs/heads/s")), "pack:1",
+         "set:%s:NONE:%s" % (hx(b"refs/heads/s"), hx(ids[0]))],
+    ]
+    for _ in range(nseq):
+        seqs.append(gen_seq(rng, ids, rng.randrange(2, 14 if rep.tier == "quick" else 30)))
+    head = "sym:%s:%s" % (hx(b"HEAD"), hx(b"refs/heads/main"))
+    lines = ["refs " + ";".join([head] + [o for o in s if o != "reopen"]) for s in seqs]
+    mres = model.run(lines)
+    ngit = 60 if rep.tier == "quick" else 1200
+    ires = impl.run([{"fn": "refs_disk", "ops": ";".join(s), "git": k < ngit} for k, s in enumerate(seqs)])
+    for s, m, r in zip(seqs, mres, ires):
+        case = {"ops": [o if o in ("reopen",) else ":".join(unhx(x).decode("latin1") if (len(x) % 2 == 0 and x not in ("NONE", "set", "add", "del", "sym", "pack", "0", "1") and all(c in "0123456789abcdef" for c in x)) else x for x in o.split(":")) for o in s]}
+        rep.case("ref-ops-disk", key=tuple(s), nontrivial=len(s) > 2, sample=case)
+        rep.traces_validated += 1
+        v = r.get("v") if isinstance(r, dict) else None
+        m = "|".join(m.split("|")[1:])          # drop the HEAD set-up step
+        if v is None:
+            rep.fail("refs-worker", "ref backend worker failed: %r" % (r,), case)
+            continue
+        if m != v:
+            msteps, isteps = m.split("|"), v.split("|")
+            k = next((i for i, (a, b) in enumerate(zip(msteps, isteps)) if a != b), min(len(msteps), len(isteps)))
+            rep.disagree("DiskRefsContainer vs Refs.rstep", dict(case, first_diff_step=k),
+                         msteps[k] if k < len(msteps) else None, (isteps[k] if k < len(isteps) else None, r.get("excs")))
+        if "git" in r:
+            # git lists resolvable refs under refs/ (dangling symrefs are omitted) and HEAD
+            fin = sorted(x for x in r["final"].split(",") if x != "_")
+            git = sorted(x for x in r["git"].split(",") if x != "_")
+            gd = dict(x.split("=", 1) for x in git)
+            dd = dict(x.split("=", 1) for x in fin)
+            for n, val in gd.items():
+                if val.startswith("Y"):
+                    # compare the fully resolved target
+                    if r["resolved"].get(n) != val[1:] and n != hx(b"HEAD"):
+                        rep.fail("git-view-differs", "git resolves symref %s to %s, dulwich to %s" % (unhx(n), unhx(val[1:]), r["resolved"].get(n)), case)
+                        break
+                    if n == hx(b"HEAD") and dd.get(n) != val:
+                        rep.fail("git-view-differs", "git reads HEAD as %s, dulwich as %s" % (val, dd.get(n)), case)
+                        break
+                    continue
+                if dd.get(n) != val:
+                    rep.fail("git-view-differs", "git lists %s=%s but dulwich reads %s" % (unhx(n), val[:12], dd.get(n)), case)
+                    break
+            for n, val in dd.items():
+                if n not in gd and val.startswith("S"):
+                    rep.fail("git-view-differs", "dulwich lists direct ref %s that git does not list (%s)" % (unhx(n), r.get("giterr")), case)
+                    break
+    # other backends on sequences without symbolic writes or colliding names
+    rseqs = [gen_seq(rng, ids, rng.randrange(2, 12), restricted=True) for _ in range(120 if rep.tier == "quick" else 2500)]
+    dres = impl.run([{"fn": "refs_disk", "ops": ";".join(s)} for s in rseqs])
+    ores = impl.run([{"fn": "refs_other", "ops": ";".join(s)} for s in rseqs])
+    for s, d, o in zip(rseqs, dres, ores):
+        rep.case("ref-ops-backends", key=("b",) + tuple(s), nontrivial=len(s) > 2)
+        dv = d.get("v")
+        strip_packs = lambda t: t
+        for name in ("dict", "reftable"):
+            if name not in o:
+                if name + "_error" in o:
+                    rep.fail("backend-" + name, "%s backend failed to run a plain sequence: %s" % (name, o[name + "_error"]), {"ops": s})
+                continue
+            if o[name] != dv:
+                ds, os_ = dv.split("|"), o[name].split("|")
+                k = next((i for i, (a, b) in enumerate(zip(ds, os_)) if a != b), 0)
+                rep.fail("backend-" + name, "%s backend differs from the files backend at step %d" % (name, k), {"ops": s},
+                         files=ds[k] if k < len(ds) else None, other=os_[k] if k < len(os_) else None)
